@@ -765,7 +765,8 @@ pub fn compare(got: Option<f64>, exp: &Exp, tout: OutT) -> Result<f64, String> {
                 };
                 let err = (g - v).abs();
                 if g == v || err <= t {
-                    let r = if t > 0.0 { err / t } else { 0.0 };
+                    // (equal infinities: err is NaN, the match is exact)
+                    let r = if g == v { 0.0 } else if t > 0.0 { err / t } else { 0.0 };
                     best = best.min(r);
                 } else if g.is_nan() {
                     continue;
